@@ -178,6 +178,19 @@ func joinTerm(s *Sym) string {
 			if _, path, ok := a.FieldPath(); ok && path[len(path)-1] == "join" {
 				return "lenB"
 			}
+			// the value just written into the buffer field, kept in a local
+			// (join := append(dsc.join, item); dsc.join = join; if len(join) < JoinSize)
+			if a.V != nil {
+				if refs := a.V.Referrers(); refs != nil {
+					if _, isSlice := a.V.Type().Underlying().(*types.Slice); isSlice {
+						for _, r := range *refs {
+							if st, ok := fieldStore(r, "join"); ok && st.Val == a.V {
+								return "lenB"
+							}
+						}
+					}
+				}
+			}
 			if a.Op == "param" {
 				return "lenItem"
 			}
